@@ -1,6 +1,7 @@
 import EpyVerif.Model.Sim
 import EpyVerif.Model.Stats
 import EpyVerif.Model.Seq
+import EpyVerif.Model.Exp
 /-! Line-protocol driver for the simulation model at `K = Float` (bit-exact with CPython on this image). -/
 open Queue Dyn Comp Sim Bbt
 
@@ -23,6 +24,7 @@ inductive SetupStep
   | infv
   | post (t : Float) (e : Elem) (h : Nat)
   | allnodes (loc : Nat)
+  | force (inst : Nat) (n : Node) (c : Nat)
 
 structure Rec where
   nodes : List Node := []
@@ -135,6 +137,7 @@ def doSetup (cfg : Sim.Cfg Float) (steps : List SetupStep) (s : St Float (U Floa
         match popF s.u with
         | none => { s with u := { s.u with err := some "rng: random() expected in initialInfectivities" } }
         | some (r, u) => let p := unord e.1 e.2; { s with u := { u with infv := (p.1, p.2, r) :: u.infv } }) s
+    | .force inst n c => { s with u := { s.u with w := changeCompartment cfg.comp s.u.w inst n c } }
     | .allnodes loc =>
       { s with u := { s.u with w := s.u.w.net.nodes.foldl (fun w n => updLocus w loc (·.add (eN n))) s.u.w } }
     | .post t e h => { s with q := (post s.q t e h).1 }) s
@@ -173,6 +176,7 @@ def main : IO Unit := do
       let dist := rest.map (fun s => match s.splitOn ":" with | [c, p] => (c.toNat!, parseF p) | _ => (0, 0.0))
       r := { r with setup := r.setup.push (.initc i.toNat! dist) }
     | ["S_POSTC", i, c, t, h] => r := { r with setup := r.setup.push (.postc i.toNat! c.toNat! (parseF t) h.toNat!) }
+    | ["S_FORCE", i, n, c] => r := { r with setup := r.setup.push (.force i.toNat! n.toInt! c.toNat!) }
     | ["S_ALLNODES", loc] => r := { r with setup := r.setup.push (.allnodes loc.toNat!) }
     | "RP" :: rest => r := { r with rng := r.rng.push (.perm (rest.map String.toInt!)) }
     | ["S_INFV"] => r := { r with setup := r.setup.push .infv }
@@ -204,6 +208,11 @@ def main : IO Unit := do
       let res := Seq.results rs tree []
       let keys := (res.map (·.1)).eraseDups.toArray.qsort (· < ·)
       IO.println s!"leaves={Seq.leaves tree} maxT={Seq.maxTime mt tree} eq={Seq.atEq eqf tree} res={keys.toList.map (fun k => (k, (res.lookup k).getD 0))}"
+    | ["GEN", lim, k] =>
+      -- a generator with limit `lim` ("-" = none) asked `k` times
+      let g : Exp.Gen Nat := { remaining := if lim == "-" then none else some lim.toNat!, made := 0, make := id }
+      let got := Exp.Gen.take k.toNat! g
+      IO.println s!"made={got.1.length} remaining={match got.2.remaining with | some x => toString x | none => "None"}"
     | "DECO" :: inst :: key :: dflt :: rest =>
       -- Process.getParameters on a parameter dict: decorated key, plain key, default, KeyError
       let d := rest.filterMap (fun s => match s.splitOn "=" with | [k, v] => some (k, v.toInt!) | _ => none)
